@@ -55,6 +55,8 @@ type N struct {
 	// other functions keep foreign positions) and, per assigned field, where it is assigned
 	lo, hi      token.Pos
 	fieldAssign map[types.Object][]token.Pos
+	root        *ast.BlockStmt // the block being normalised, while its loops are rewritten
+	rewrote     bool
 }
 
 func New(pk *packages.Package, opt Options) *N {
@@ -98,7 +100,14 @@ func (n *N) Block(b *ast.BlockStmt, self *types.Func) *ast.BlockStmt {
 		body.List = n.copyProp(body.List)
 	}
 	if !n.Opt.NoLoops {
+		n.root = body
+		n.rewrote = false
 		body.List = n.loops(body.List)
+		if n.rewrote && !n.Opt.NoCopyProp {
+			// a local that a head-tail loop consumed is now only read: it stands for what it was set to
+			body.List = n.copyProp(body.List)
+		}
+		n.root = nil
 	}
 	return body
 }
@@ -1323,10 +1332,199 @@ func (n *N) loops(list []ast.Stmt) []ast.Stmt {
 				out = append(out, r)
 				continue
 			}
+			if r := n.headTailToRange(x); r != nil {
+				n.rewrote = true
+				// `L := n.List` right in front of the loop (the parameter of an inlined helper): L was only there to
+				// be consumed, the loop ranges over what it was set to
+				if rs, ok := r.(*ast.RangeStmt); ok && len(out) > 0 {
+					if as, ok := out[len(out)-1].(*ast.AssignStmt); ok && len(as.Lhs) == 1 && len(as.Rhs) == 1 && n.objOf(as.Lhs[0]) != nil && n.objOf(as.Lhs[0]) == n.objOf(rs.X) && simpleArg(as.Rhs[0]) {
+						rs.X = as.Rhs[0]
+						out = out[:len(out)-1]
+					}
+				}
+				out = append(out, r)
+				continue
+			}
 		}
 		out = append(out, s)
 	}
 	return out
+}
+
+// headTailToRange rewrites `for ; len(L) > 0; L = L[1:] {… L[0] …}` - the list consumed from the front -
+// into `for _, v := range L {… v …}`, when L is a plain local or parameter that the body uses only as L[0]
+// and that nothing reads after the loop (it is empty there; a range loop would leave it whole).
+func (n *N) headTailToRange(x *ast.ForStmt) ast.Stmt {
+	if x.Init != nil || x.Cond == nil || x.Post == nil {
+		return nil
+	}
+	be, ok := unparenExpr(x.Cond).(*ast.BinaryExpr)
+	if !ok {
+		return nil
+	}
+	lenArg := func(e ast.Expr) ast.Expr {
+		call, ok := unparenExpr(e).(*ast.CallExpr)
+		if !ok || len(call.Args) != 1 {
+			return nil
+		}
+		if id, ok := call.Fun.(*ast.Ident); !ok || id.Name != "len" {
+			return nil
+		}
+		return call.Args[0]
+	}
+	isZero := func(e ast.Expr) bool {
+		tv, ok := n.Info.Types[e]
+		return ok && tv.Value != nil && tv.Value.String() == "0"
+	}
+	var coll ast.Expr
+	switch {
+	case (be.Op == token.GTR || be.Op == token.NEQ) && isZero(be.Y):
+		coll = lenArg(be.X)
+	case (be.Op == token.LSS || be.Op == token.NEQ) && isZero(be.X):
+		coll = lenArg(be.Y)
+	}
+	if coll == nil {
+		return nil
+	}
+	lid, ok := unparenExpr(coll).(*ast.Ident)
+	if !ok {
+		return nil
+	}
+	lo := n.objOf(lid)
+	lv, isVar := lo.(*types.Var)
+	if !isVar || lv.IsField() || lv.Parent() == nil || lv.Parent() == lv.Pkg().Scope() {
+		return nil
+	}
+	if _, isSlice := lv.Type().Underlying().(*types.Slice); !isSlice {
+		return nil
+	}
+	// post: L = L[1:]
+	as, ok := x.Post.(*ast.AssignStmt)
+	if !ok || as.Tok != token.ASSIGN || len(as.Lhs) != 1 || len(as.Rhs) != 1 || n.objOf(as.Lhs[0]) != lo {
+		return nil
+	}
+	sl, ok := unparenExpr(as.Rhs[0]).(*ast.SliceExpr)
+	if !ok || sl.Max != nil || sl.Low == nil || n.objOf(sl.X) != lo {
+		return nil
+	}
+	if tv, ok := n.Info.Types[sl.Low]; !ok || tv.Value == nil || tv.Value.String() != "1" {
+		return nil
+	}
+	if sl.High != nil {
+		if a := lenArg(sl.High); a == nil || n.objOf(a) != lo {
+			return nil
+		}
+	}
+	// body: L only as L[0], never assigned, no address taken, no closure
+	repl := map[ast.Node]ast.Node{}
+	var elemTV types.TypeAndValue
+	uses, good := 0, 0
+	bad := false
+	ast.Inspect(x.Body, func(m ast.Node) bool {
+		switch y := m.(type) {
+		case *ast.IndexExpr:
+			if n.objOf(y.X) == lo {
+				if tv, ok := n.Info.Types[y.Index]; ok && tv.Value != nil && tv.Value.String() == "0" {
+					good++
+					repl[y] = nil
+					elemTV = n.Info.Types[y]
+				}
+			}
+		case *ast.Ident:
+			if n.Info.Uses[y] == lo {
+				uses++
+			}
+		case *ast.FuncLit:
+			bad = true
+		case *ast.BranchStmt:
+			if y.Tok == token.CONTINUE || y.Label != nil {
+				// continue runs the post statement in both forms; labels may leave to places that read L
+				if y.Label != nil {
+					bad = true
+				}
+			}
+		}
+		return true
+	})
+	if bad || good == 0 || uses != good {
+		return nil
+	}
+	ast.Inspect(x.Body, func(m ast.Node) bool {
+		switch y := m.(type) {
+		case *ast.AssignStmt:
+			for _, l := range y.Lhs {
+				if _, isRepl := repl[l]; isRepl {
+					bad = true
+				}
+			}
+		case *ast.UnaryExpr:
+			if _, isRepl := repl[y.X]; isRepl && y.Op == token.AND {
+				bad = true
+			}
+		}
+		return true
+	})
+	if bad {
+		return nil
+	}
+	// nothing reads L after the loop
+	if n.root == nil {
+		return nil
+	}
+	passed, after, reinit := false, false, false
+	ast.Inspect(n.root, func(m ast.Node) bool {
+		if m == ast.Node(x) {
+			passed = true
+			return false
+		}
+		if !passed || reinit {
+			return !reinit
+		}
+		if as, ok := m.(*ast.AssignStmt); ok && len(as.Lhs) == 1 && len(as.Rhs) == 1 && n.objOf(as.Lhs[0]) == lo {
+			// L is given a new value before anything reads it (the next inlined copy of the same helper)
+			mentions := false
+			ast.Inspect(as.Rhs[0], func(k ast.Node) bool {
+				if id, ok := k.(*ast.Ident); ok && n.Info.Uses[id] == lo {
+					mentions = true
+				}
+				return true
+			})
+			if !mentions {
+				reinit = true
+				return false
+			}
+		}
+		if id, ok := m.(*ast.Ident); ok && n.Info.Uses[id] == lo {
+			after = true
+		}
+		return true
+	})
+	if !passed || after {
+		return nil
+	}
+	v := types.NewVar(x.Pos(), n.Pkg.Types, "elem", elemTV.Type)
+	def := &ast.Ident{NamePos: x.Pos(), Name: "elem"}
+	n.Info.Defs[def] = v
+	for k := range repl {
+		id := &ast.Ident{NamePos: k.Pos(), Name: "elem"}
+		n.Info.Uses[id] = v
+		n.Info.Types[id] = elemTV
+		repl[k] = id
+	}
+	c := &cloner{n: n, from: n.Info, repl: repl}
+	nb := c.node(x.Body).(*ast.BlockStmt)
+	us := &ast.Ident{NamePos: x.Pos(), Name: "_"}
+	return &ast.RangeStmt{For: x.Pos(), Key: us, Value: def, Tok: token.DEFINE, X: coll, Body: nb}
+}
+
+func unparenExpr(e ast.Expr) ast.Expr {
+	for {
+		p, ok := e.(*ast.ParenExpr)
+		if !ok {
+			return e
+		}
+		e = p.X
+	}
 }
 
 func (n *N) forToRange(x *ast.ForStmt) ast.Stmt {
